@@ -114,7 +114,11 @@ def _check_partition(repo, r1):
             val = y[1]
             # the data part X = b''.join(<one chunk>)
             X, padded = val, False
-            if val[0] == "cat" and len(val[1]) == 2:
+            lj = S.match(("call", ("method", S.mv("X"), "ljust"), (S.mv("W"), ("const", b"\x00")), ()), val)
+            if lj is not None and lj["W"] == bt:
+                # <data>.ljust(block_size_bytes, b'\x00') is the same right padding (and leaves a full block alone)
+                X, padded = lj["X"], True
+            elif val[0] == "cat" and len(val[1]) == 2:
                 X, pad = val[1]
                 padded = pad in _zeros(("op", "Sub", bt, _len(X))) or pad in _zeros(("call", ("fn", "max"), (("op", "Sub", bt, _len(X)), ("const", 0)), ()))
                 if not padded:
@@ -192,7 +196,13 @@ def _check_parsers(repo, r1):
                     return False
                 ft = _fact_terms(ps, k)
                 return ft is not None and ((ft[0] == e and ft[1] in _zeros(_len(e)) + _zeros(sz)) or (ft[1] == e and ft[0] in _zeros(_len(e)) + _zeros(sz)))
-            if not any(nonzero(k, t) for (k, t) in facts):
+            def some_byte_set(k, t):
+                # any(<entry>) holds: for a byte string that is "not all zero" (the entries are slices of the bytes parameter)
+                if k[0] != "truth" or not t or not k[1].startswith("any(") or not k[1].endswith(")"):
+                    return False
+                ft = _fact_terms(ps, ("truth", k[1][4:-1]))
+                return ft is not None and ft[0] == e
+            if not any(nonzero(k, t) or some_byte_set(k, t) for (k, t) in facts):
                 r1.fail_fn(q, q.node, "stops at the first all-zero entry (same pad byte)",
                            "parser collects an entry without having established that it differs from b'\\x00' * len(entry) [%s]: the packer pads with b'\\x00', so the "
                            "padding (or a terminator tested with another byte) ends up in the result" % describe_alt(facts)[:160])
